@@ -238,11 +238,150 @@ def run(case):
             "w_total": flat(conn.weight.detach() - w0), "synpre": synpre}
 
 
+def call_trainer(trainer, sig_t, scale):
+    if sig_t is None:
+        trainer()
+    else:
+        s = torch.tensor(sig_t, dtype=torch.float64) if isinstance(sig_t, list) else float(sig_t)
+        trainer(s, scale)
+
+
+def set_delays(conn, delays, dt, how):
+    """re-assign the learned delays between two steps: through the public setter, or through the Updater (the path
+    delay learning takes: an update part new - old is accumulated and applied)"""
+    new = (torch.tensor(delays, dtype=torch.float64) * dt).reshape(conn.delay.shape)
+    if how == "setter":
+        with torch.no_grad():
+            conn.delay = new
+    else:
+        diff = new - conn.delay.detach()
+        conn.updater.delay = (diff.clamp_min(0.0), (-diff).clamp_min(0.0))
+        conn.update()
+
+
+def run_scenario(case):
+    """a single cell trained over a history with operations BETWEEN steps (case["events"], each {"at": t, "op": ...}
+    executed before step t).  The update is applied (and the accumulator cleared) after EVERY trainer call, so that no
+    un-applied parts are pending when state is saved / cleared.
+      restore   : state_dict of layer and trainer are saved; a TWIN (same construction) that has run >= 1 step on other
+                  data ("junk_pre"/"junk_post") loads them and continues the history in place of the original
+      clear     : trainer.clear(); layer.clear(); continue
+      delay_set / delay_upd : the delays (steps, weight-shaped "delays") are re-assigned by the setter / by the Updater"""
+    import copy
+    layer, conn, neuron, trainer = build(case)
+    layer.train()
+    trainer.train()
+    T, B = len(case["pre"]), case["B"]
+    w_init = conn.weight.detach().clone()
+    neuron.script = [torch.tensor(p, dtype=torch.bool) for p in case["post"]]
+    events = {}
+    for ev in case.get("events", []):
+        events.setdefault(ev["at"], []).append(ev)
+    sig, scale = case.get("signal"), case.get("scale", 1.0)
+    steps = []
+    for t in range(T):
+        for ev in events.get(t, []):
+            if ev["op"] == "restore":
+                saved_layer = copy.deepcopy(layer.state_dict())
+                saved_trainer = copy.deepcopy(trainer.state_dict())
+                layer2, conn2, neuron2, trainer2 = build(case)
+                layer2.train()
+                trainer2.train()
+                neuron2.script = [torch.tensor(p, dtype=torch.bool) for p in ev["junk_post"]]
+                for jp in ev["junk_pre"]:
+                    layer2(torch.tensor(jp, dtype=torch.bool).reshape(B, *conn2.inshape))
+                    call_trainer(trainer2, None if sig is None else ([0.5] * B if isinstance(sig[0], list) else 0.5), scale)
+                    conn2.update()
+                layer2.load_state_dict(saved_layer)
+                trainer2.load_state_dict(saved_trainer)
+                layer, conn, neuron, trainer = layer2, conn2, neuron2, trainer2
+                neuron.script = [torch.tensor(p, dtype=torch.bool) for p in case["post"][t:]]
+            elif ev["op"] == "clear":
+                trainer.clear()
+                layer.clear()
+            elif ev["op"] in ("delay_set", "delay_upd"):
+                set_delays(conn, ev["delays"], case["dt"], "setter" if ev["op"] == "delay_set" else "updater")
+            else:
+                raise ValueError(ev["op"])
+        x = torch.tensor(case["pre"][t], dtype=torch.bool).reshape(B, *conn.inshape)
+        layer(x)
+        call_trainer(trainer, None if sig is None else sig[t], scale)
+        acc = conn.updater.weight
+        rec = {"pos": flat(acc.pos), "neg": flat(acc.neg)}
+        wb = conn.weight.detach().clone()
+        conn.update()
+        rec["dw"] = flat(conn.weight.detach() - wb)
+        rec["cleared"] = acc.pos is None and acc.neg is None
+        steps.append(rec)
+    return {"ok": True, "steps": steps, "dw": flat(torch.zeros_like(conn.weight)), "wshape": list(conn.weight.shape),
+            "w_total": flat(conn.weight.detach() - w_init), "synpre": []}
+
+
+def run_biclique(g):
+    """ONE trainer object and ONE Biclique layer (2 dense connections x 2 neuron groups), all four cells registered, each
+    with its own keyword overrides (g["cells"][q] = {"bic": [connection, neuron], "override": {...}}).  Cells sharing a
+    neuron group observe the same neuron.spike (their monitors are pooled when their tags agree); cells sharing a
+    connection observe the same synapse and write into the SAME accumulator.  One result per connection."""
+    dt, B = g["dt"], g["B"]
+    trainer = mk_trainer(dict(g["defaults"], trainer=g["trainer"]))
+    KEEP.append(trainer)
+    conns, neurons = [], []
+    for cs in g["conns"]:
+        delay = None if cs.get("kmax") is None else cs["kmax"] * dt
+        conn = neural.LinearDense((cs["n_in"],), (g["n_out"],), dt, synapse=neural.DeltaCurrent.partialconstructor(1.0),
+                                  delay=delay, batch_size=B)
+        with torch.no_grad():
+            conn.weight = torch.full_like(conn.weight, 0.5)
+            if delay is not None:
+                conn.delay = (torch.tensor(cs["delays"], dtype=torch.float64) * dt).reshape(conn.delay.shape)
+        conn.updater = conn.defaultupdater()
+        conns.append(conn)
+    for post in g["posts"]:
+        neu = ScriptedNeuron((g["n_out"],), dt, batch_size=B)
+        neu.script = [torch.tensor(p, dtype=torch.bool) for p in post]
+        neurons.append(neu)
+    layer = neural.Biclique([(f"k{i}", c) for i, c in enumerate(conns)], [(f"n{j}", n) for j, n in enumerate(neurons)])
+    KEEP.append(layer)
+    for q, cc in enumerate(g["cells"]):
+        cell = getattr(getattr(layer.cells, f"k{cc['bic'][0]}"), f"n{cc['bic'][1]}")
+        trainer.register_cell(f"c{q}", cell, **override_kwargs(g["trainer"], cc.get("override", {})))
+    layer.train()
+    trainer.train()
+    w0 = [c.weight.detach().clone() for c in conns]
+    T = len(g["conns"][0]["pre"])
+    sig, scale = g.get("signal"), g.get("scale", 1.0)
+    recs = [[] for _ in conns]
+    for t in range(T):
+        layer({f"k{i}": (torch.tensor(cs["pre"][t], dtype=torch.bool).reshape(B, cs["n_in"]),)
+               for i, cs in enumerate(g["conns"])})
+        call_trainer(trainer, None if sig is None else sig[t], scale)
+        for i, conn in enumerate(conns):
+            acc = conn.updater.weight
+            recs[i].append({"pos": flat(acc.pos), "neg": flat(acc.neg)})
+    out = []
+    for i, conn in enumerate(conns):
+        wb = conn.weight.detach().clone()
+        conn.update()
+        out.append({"ok": True, "steps": recs[i], "dw": flat(conn.weight.detach() - wb), "wshape": list(conn.weight.shape),
+                    "w_total": flat(conn.weight.detach() - w0[i]), "synpre": []})
+    return {"ok": True, "cells": out}
+
+
+def dispatch(c):
+    if c.get("kind") == "group":
+        return run_group(c)
+    if c.get("kind") == "biclique":
+        return run_biclique(c)
+    if c.get("events") is not None:
+        return run_scenario(c)
+    return run(c)
+
+
 def handler(payload):
     out = []
     for c in payload["cases"]:
         try:
-            out.append(run_group(c) if c.get("kind") == "group" else run(c))
+            out.append(dispatch(c))
         except Exception as e:  # noqa
             import traceback
             out.append({"ok": False, "err": exc_code(e), "msg": f"{type(e).__name__}: {e}",
